@@ -466,6 +466,9 @@ func execHandle(f hackpadfs.File, st Step, res *Result) {
 		fillErr(res, hackpadfs.ChmodFile(f, fs.FileMode(st.Perm)))
 	case "H.Close":
 		fillErr(res, f.Close())
+	case "H.Chtimes":
+		t := time.Unix(st.MTime, 0)
+		fillErr(res, hackpadfs.ChtimesFile(f, t, t))
 	default:
 		panic("fsx: unknown handle step " + st.K)
 	}
